@@ -5,6 +5,7 @@
    {"ev":"rw.fire"}                                 hook: the debounce timer expired
    {"ev":"rw.callback","fp":label}                  hook: the callback is about to run for fp
    {"ev":"cb","read":label,"t":ms}                  the callback read the file
+   {"ev":"break"}                                   the harness made the watcher fail for good
    {"ev":"settled"}                                 the loop is at rest (two reconciliations after
                                                     the last operation, nothing armed)
    labels: the contents "A","B","C", "missing", "empty"/"other" (a torn read) *)
@@ -26,8 +27,10 @@ TFire == IsEv("rw.fire") /\ win' = (win /\ cbp)
          /\ UNCHANGED <<file, since, torn, inop, evaluated, loaded, cbp, shaky, tStable, tCb, bound>>
 TCall == IsEv("rw.callback") /\ Callback(Rec.fp)
 TCb == IsEv("cb") /\ CbRead(Rec.read, Rec.t)
+\* the event watcher broke for good: every later notification is lost; nothing else changes
+TBreak == IsEv("break") /\ UNCHANGED ovars
 TSet == IsEv("settled") /\ Settled
 
-TNext == TReset \/ TOpB \/ TOpE \/ TRec \/ TFire \/ TCall \/ TCb \/ TSet
+TNext == TReset \/ TOpB \/ TOpE \/ TRec \/ TFire \/ TCall \/ TCb \/ TSet \/ TBreak
 TSpec == TInit /\ [][TNext]_tvars
 =============================================================================
